@@ -71,6 +71,12 @@ theorem decode_bom_enc {s : Str} {y : Bytes} (h : c.enc s = some y) : c.decode (
 
 end Codec.Good
 
+/-- a file that starts with the whole mark is decoded by the text layer as by `bytes.decode` -/
+theorem decodeStream_bom_append (c : Codec) (y : Bytes) : c.decodeStream (c.bom ++ y) = c.decode (c.bom ++ y) := by
+  unfold Codec.decodeStream
+  have h : decide ((c.bom ++ y).length < c.bom.length) = false := by simp
+  rw [h]; rfl
+
 /-! ### utf-8 of an ASCII string -/
 
 theorem utf8Enc_ascii (s : Str) (h : IsAscii s) : utf8Enc s = s := by
@@ -532,7 +538,7 @@ theorem openIn_rb (fs : FS) (p : Str) (data : Bytes) (h : fs p = some data) : op
   simp [openIn, parse_rb, bind, Except.bind, h]
 
 theorem loadFile_text (c : Codec) (fs : FS) (p eol : Str) (data : Bytes) (s : Str) (hstd : isStdEol eol = true)
-    (h : fs p = some data) (hd : c.decode data = some s) :
+    (h : fs p = some data) (hd : c.decodeStream data = some s) :
     loadFile c fs p ['t'] eol = .ok (.str (univNL s)) := by
   unfold loadFile
   rw [show (['t'] : Str).contains 'b' = false by decide]
@@ -552,7 +558,7 @@ theorem loadFile_b (c : Codec) (fs : FS) (p eol : Str) (data : Bytes) (h : fs p 
   simp [rdB, openIn_rb fs p data h, bind, Except.bind]
 
 theorem loadLines_text (c : Codec) (fs : FS) (p eol : Str) (data : Bytes) (s : Str) (hstd : isStdEol eol = true)
-    (h : fs p = some data) (hd : c.decode data = some s) :
+    (h : fs p = some data) (hd : c.decodeStream data = some s) :
     loadLines c fs p ['t'] eol = .ok ((textLines (univNL s)).map (fun l => Loaded.str (rstrip crlf l))) := by
   unfold loadLines
   rw [show (['t'] : Str).contains 'b' = false by decide]
@@ -648,6 +654,12 @@ theorem decode_nil (c : Codec) (g : c.Good) : c.decode [] = some [] := by
   unfold Codec.decode
   have : c.dec [] = some [] := g.dec_enc [] [] g.enc_nil
   cases hb : c.bom <;> simp [startsWith, this]
+
+theorem decodeStream_nil (c : Codec) (g : c.Good) : c.decodeStream [] = some [] := by
+  unfold Codec.decodeStream
+  split
+  · rfl
+  · exact decode_nil c g
 
 /-! ### codecs for which the assumptions are discharged -/
 
